@@ -4,6 +4,7 @@
 -/
 import Proofs.C05_Lemmas
 import Proofs.C05_Hist
+import Proofs.C05_Source
 import Mathlib.Analysis.Real.Sqrt
 import Mathlib.Data.Rat.Floor
 
@@ -762,6 +763,187 @@ theorem hist_boxSet_scale (P : Params K) (ops : List (Op K)) (c0 : CSys K) (h0 :
   simp only [step]
   rw [(boxSet_scale_spec P.tiny c.erase v o).1 hdet]
 
+/-! ## uniqueness: the image flags are the ONLY whole-cell shift that brings an atom into the cell -/
+
+/-- floor is unique: the only integer `n` with `0 ≤ s - n < 1` is `fl s`. -/
+theorem IsFloor.unique {fl : K → Int} (h : IsFloor fl) {s : K} {n : Int} (h0 : 0 ≤ s - (n : K)) (h1 : s - (n : K) < 1) :
+    n = fl s := by
+  obtain ⟨ha, hb⟩ := h s
+  have h2 : ((n : Int) : K) < ((fl s + 1 : Int) : K) := by
+    rw [Int.cast_add, Int.cast_one]; linarith
+  have h3 : ((fl s : Int) : K) < ((n + 1 : Int) : K) := by
+    rw [Int.cast_add, Int.cast_one]; linarith
+  have h4 := Int.cast_lt.mp h2
+  have h5 := Int.cast_lt.mp h3
+  omega
+
+theorem relToCart_add_lattice (b : Box K) (s : V3 K) (f : V3 Int) :
+    b.relToCart ⟨s.x + (f.x : K), s.y + (f.y : K), s.z + (f.z : K)⟩ = b.relToCart s + latticeVec b.vects f := by
+  simp only [Box.relToCart, latticeVec, M3.vecMul, V3.add_def, V3.mk.injEq]
+  refine ⟨?_, ?_, ?_⟩ <;> ring
+
+/-- **wrap_flags_unique** ("moves each atom by whole cell vectors along periodic directions only … leaves every atom inside",
+    read as *exactly*): if `q` differs from the atom's position `p` by whole cell vectors `f` along periodic directions only
+    and lies in the half-open cell `0 ≤ s < 1` along every periodic direction, then `f` are the image flags `wrap` returns
+    and `q` is the position `wrap` stores.  So the result of `wrap` is determined by the clauses of the property. -/
+theorem wrap_flags_unique (fl : K → Int) (hfl : IsFloor fl) (b : Box K) (hdet : M3.det b.vects ≠ 0) (pbc : V3 Bool)
+    (p q : V3 K) (f : V3 Int) (hq : q + latticeVec b.vects f = p)
+    (hnp : (pbc.x = false → f.x = 0) ∧ (pbc.y = false → f.y = 0) ∧ (pbc.z = false → f.z = 0))
+    (hin : (pbc.x = true → 0 ≤ (b.cartToRel q).x ∧ (b.cartToRel q).x < 1) ∧
+           (pbc.y = true → 0 ≤ (b.cartToRel q).y ∧ (b.cartToRel q).y < 1) ∧
+           (pbc.z = true → 0 ≤ (b.cartToRel q).z ∧ (b.cartToRel q).z < 1)) :
+    f = atomFlags fl b pbc p ∧ q = atomPos fl b pbc p := by
+  -- relative coordinates of p are those of q plus f
+  have hp : b.cartToRel p = ⟨(b.cartToRel q).x + (f.x : K), (b.cartToRel q).y + (f.y : K), (b.cartToRel q).z + (f.z : K)⟩ := by
+    rw [← hq]
+    conv_lhs => rw [← relToCart_cartToRel b hdet q]
+    rw [← relToCart_add_lattice, cartToRel_relToCart b hdet]
+  have hf : f = atomFlags fl b pbc p := by
+    obtain ⟨fx, fy, fz⟩ := f
+    simp only [atomFlags, flagsOf, flagOf, hp, V3.mk.injEq]
+    refine ⟨?_, ?_, ?_⟩
+    · cases hx : pbc.x
+      · simpa using hnp.1 hx
+      · obtain ⟨a0, a1⟩ := hin.1 hx
+        simp only [if_true]
+        apply hfl.unique <;> simp only [add_sub_cancel_right] <;> assumption
+    · cases hy : pbc.y
+      · simpa using hnp.2.1 hy
+      · obtain ⟨a0, a1⟩ := hin.2.1 hy
+        simp only [if_true]
+        apply hfl.unique <;> simp only [add_sub_cancel_right] <;> assumption
+    · cases hz : pbc.z
+      · simpa using hnp.2.2 hz
+      · obtain ⟨a0, a1⟩ := hin.2.2 hz
+        simp only [if_true]
+        apply hfl.unique <;> simp only [add_sub_cancel_right] <;> assumption
+  refine ⟨hf, ?_⟩
+  have h1 := atom_reconstruct fl b hdet pbc p
+  rw [← hf] at h1
+  have h2 : q + latticeVec b.vects f = atomPos fl b pbc p + latticeVec b.vects f := by rw [hq, h1]
+  simp only [V3.add_def, V3.mk.injEq] at h2
+  obtain ⟨e1, e2, e3⟩ := h2
+  ext
+  · exact add_right_cancel e1
+  · exact add_right_cancel e2
+  · exact add_right_cancel e3
+
+/-! ## the public entry points with their option handling (model of lean/Atomman/C05_Src.lean; the defaults, tests and
+    refusals are tied to the source by `gen_defaults_eq_model` / `gen_flagTests_eq_model` / `gen_*Body_eq_model`) -/
+
+/-- **boxSetApi_refuses_iff**: `box_set(…, scale=x)` refuses exactly when `x` is given and is not a Python `bool` (an `int`,
+    a numpy bool, a string, `None`, a float), always with `TypeError`; omitted it is `False`; `True` holds the relative
+    coordinates, `False` the Cartesian ones. -/
+theorem boxSetApi_refuses_iff (tiny : K) (c : CSys K) (scale : Option PyVal) (v : M3 K) (o : V3 K) :
+    (c.boxSetApi tiny scale v o = .error .typeError ↔ ∃ x, scale = some x ∧ x.isBool = false) ∧
+    (∀ e, c.boxSetApi tiny scale v o = .error e → e = .typeError) ∧
+    (∀ b, scale = some (.bool b) → c.boxSetApi tiny scale v o = .ok (c.boxSet tiny b v o)) ∧
+    (scale = none → c.boxSetApi tiny scale v o = .ok (c.boxSet tiny false v o)) := by
+  refine ⟨?_, ?_, ?_, ?_⟩
+  · rcases scale with _ | (_ | b | n | s | b | b) <;>
+      simp [CSys.boxSetApi, boxSetScaleDefault, PyVal.isBool]
+  · intro e
+    rcases scale with _ | (_ | b | n | s | b | b) <;>
+      simp [CSys.boxSetApi, boxSetScaleDefault, PyVal.isBool] <;> intro h <;> exact h.symm
+  · rintro b rfl
+    cases b <;> rfl
+  · rintro rfl
+    rfl
+
+/-- **wrapApi_spec**: `wrap(<flag>)` does the same work whatever is passed; the image flags are handed back exactly when
+    the flag is truthy (so `1` and `numpy.True_` count, `0`, `None`, `''` and an omitted flag do not). -/
+theorem wrapApi_spec (P : Params K) (c : CSys K) (flag : Option PyVal) :
+    (c.wrapApi P flag).2 = (c.wrapC P).2 ∧
+    ((flag.getD (.bool false)).truthy = true → (c.wrapApi P flag).1 = some (c.wrapC P).1) ∧
+    ((flag.getD (.bool false)).truthy = false → (c.wrapApi P flag).1 = none) := by
+  refine ⟨rfl, ?_, ?_⟩ <;> intro h <;> simp [CSys.wrapApi, wrapFlagDefault, h]
+
+/-- **api_wrap_reconstruct** (end to end): at any point of any history on one object, `system.wrap(<anything>)` moves every
+    atom by whole old cell vectors (zero along non-periodic directions) whether or not the image flags are asked for, and
+    whenever flags are returned they reconstruct the positions held before the call. -/
+theorem api_wrap_reconstruct (P : Params K) (ops : List (Op K)) (c0 : CSys K) (h0 : Coherent c0)
+    (hdet : M3.det (runC P c0 ops).1.box.vects ≠ 0) (flag : Option PyVal) :
+    let c := (runC P c0 ops).1
+    let r := c.wrapApi P flag
+    (∃ f : List (V3 Int), List.zipWith (fun p' g => p' + latticeVec c.box.vects g) r.2.pos f = c.pos ∧
+      ∀ g ∈ f, (c.pbc.x = false → g.x = 0) ∧ (c.pbc.y = false → g.y = 0) ∧ (c.pbc.z = false → g.z = 0)) ∧
+    (∀ f, r.1 = some f → List.zipWith (fun p' g => p' + latticeVec c.box.vects g) r.2.pos f = c.pos) ∧
+    (r.1.isSome = (flag.getD (.bool false)).truthy) := by
+  intro c r
+  obtain ⟨h1, h2⟩ := hist_wrap_reconstruct P ops c0 h0 hdet
+  obtain ⟨e2, e1, e0⟩ := wrapApi_spec P c flag
+  refine ⟨⟨(c.wrapC P).1, ?_, h2⟩, ?_, ?_⟩
+  · show List.zipWith _ (c.wrapApi P flag).2.pos _ = _
+    rw [e2]; exact h1
+  · intro f hf
+    show List.zipWith _ (c.wrapApi P flag).2.pos _ = _
+    rw [e2]
+    cases ht : (flag.getD (.bool false)).truthy
+    · have := e0 ht
+      rw [show r.1 = (c.wrapApi P flag).1 from rfl, this] at hf
+      exact absurd hf (by simp)
+    · have := e1 ht
+      rw [show r.1 = (c.wrapApi P flag).1 from rfl, this] at hf
+      cases hf
+      exact h1
+  · show (c.wrapApi P flag).1.isSome = _
+    cases ht : (flag.getD (.bool false)).truthy
+    · rw [e0 ht]; rfl
+    · rw [e1 ht]; rfl
+
+/-- **normalizeApi_style_iff**: `System.normalize(style, …)` goes on to `atomman.lammps.normalize` exactly when `style` is
+    omitted or is the string `'lammps'`; every other value (another string, `None`, a number, a bool) is refused with
+    `ValueError` before anything is computed. -/
+theorem normalizeApi_style_iff (P : Params K) (c : CSys K) (style flag : Option PyVal) :
+    ((style = none ∨ style = some (.str "lammps")) → c.normalizeApi P style flag = c.lmpNormalizeApi P flag) ∧
+    (¬ (style = none ∨ style = some (.str "lammps")) → c.normalizeApi P style flag = .error .valueError) := by
+  refine ⟨?_, ?_⟩
+  · rintro (rfl | rfl) <;> rfl
+  · intro h
+    have hne : style.getD normStyleDefault ≠ normStyleAccepted := by
+      rcases style with _ | x
+      · exact absurd (Or.inl rfl) h
+      · intro hx
+        apply h; right
+        simp only [Option.getD_some, normStyleAccepted] at hx
+        rw [hx]
+    simp [CSys.normalizeApi, hne]
+
+/-- **api_normalize_never_refuses** (end to end): at any point of any history on one object whose cell went through the
+    setter, a fully periodic system with a non-singular cell is accepted by `system.normalize()` /
+    `system.normalize('lammps', <any flag>)` / `lammps.normalize(system, <any flag>)`: no `ValueError` from the style test
+    or the angle check, no assertion; the system handed back is `normalize?` of the visible state (to which all
+    `normalize_*` clauses apply) whatever the flag, and the transformation is part of the result exactly when the flag is
+    truthy.  `hc2` is the remaining clean-up hypothesis of `hist_normalize_full`. -/
+theorem api_normalize_never_refuses (P : Params K) (ht0 : 0 ≤ P.tiny) (ht1 : P.tiny < 1)
+    (ops : List (Op K)) (c0 : CSys K) (h0 : Coherent c0) (hc0 : Clean P.tiny c0)
+    (hp : (runC P c0 ops).1.pbc = ⟨true, true, true⟩)
+    (hdet : M3.det (runC P c0 ops).1.box.vects ≠ 0)
+    (hs : SqrtOK P.sqrt (flip (runC P c0 ops).1.box).vects)
+    (hc2 : let s := (runC P c0 ops).1.erase
+      ∀ b2, abcBox? P.sqrt (flip s.box).vects = some b2 → zeroSmall P.tiny b2.vects = b2.vects)
+    (style flag : Option PyVal) (hstyle : style = none ∨ style = some (.str "lammps")) :
+    let c := (runC P c0 ops).1
+    ∃ z, normalize? P.fl P.pad P.sqrt c.box c.pbc c.pos = some z ∧
+      c.normalizeApi P style flag = .ok (z, (flag.getD (.bool false)).truthy) ∧
+      c.lmpNormalizeApi P flag = .ok (z, (flag.getD (.bool false)).truthy) := by
+  intro c
+  have hclean : Clean P.tiny c := clean_runC P ht0 ht1 ops c0 hc0
+  obtain ⟨hn, _⟩ := hist_normalize_full P ht0 ht1 ops c0 h0 hc0 hp hc2
+  obtain ⟨hg, z, hz, _⟩ := normalize_never_refuses P.fl P.pad P.sqrt c.box hdet hs c.pbc c.pos
+  have hfl : (c.flipped P).box.vects = (flip c.box).vects := by
+    unfold CSys.flipped flip
+    by_cases ht : triple c.box.vects < 0
+    · simp only [ht, if_true, CSys.setBox, CSys.setVects, CSys.setOrigin]
+      exact zeroSmall_flipC P.tiny c.box hclean
+    · simp only [ht, if_false]
+  have hl : c.lmpNormalizeApi P flag = .ok (z, (flag.getD (.bool false)).truthy) := by
+    unfold CSys.lmpNormalizeApi
+    rw [hfl, hg, if_pos rfl]
+    have : c.normalizeC P = some z := by rw [show c.normalizeC P = _ from hn]; exact hz
+    rw [this]; rfl
+  exact ⟨z, hz, by rw [(normalizeApi_style_iff P c style flag).1 hstyle]; exact hl, hl⟩
+
 /-! ## non-vacuity: concrete states meeting the hypotheses -/
 
 /-- a rational square root good enough for the 3-4-5 example cell. -/
@@ -821,6 +1003,28 @@ example : M3.det (zeroSmall exPar.tiny (⟨⟨0, 3, 0⟩, ⟨4, 0, 0⟩, ⟨0, 0
 
 /-- at ℝ (real floor, real square root) every non-singular cell meets all hypotheses: normalize is
     defined and yields a right-handed LAMMPS cell. -/
+-- wrap_flags_unique: the second atom of `exPos`, pbc (T, F, T): q = p - (1 a + 2 c) meets every hypothesis
+example : (⟨-7, 3/2, 3/2⟩ : V3 ℚ) + latticeVec exBox.vects ⟨1, 0, 2⟩ = ⟨-7, 9/2, 23/2⟩ := by decide +kernel
+example : let s := exBox.cartToRel (⟨-7, 3/2, 3/2⟩ : V3 ℚ); 0 ≤ s.x ∧ s.x < 1 ∧ 0 ≤ s.z ∧ s.z < 1 := by decide +kernel
+example : atomFlags Rat.floor exBox ⟨true, false, true⟩ (⟨-7, 9/2, 23/2⟩ : V3 ℚ) = ⟨1, 0, 2⟩ := by decide +kernel
+-- the entry points: flag / scale / style values that are not Python bools
+example : (exSys.wrapApi exPar (some (.int 1))).1 = some [⟨0, 0, 0⟩, ⟨1, -2, 2⟩, ⟨0, 0, 0⟩] := by decide +kernel
+example : (exSys.wrapApi exPar (some (.npbool true))).1.isSome = true ∧ (exSys.wrapApi exPar (some (.int 0))).1 = none ∧
+    (exSys.wrapApi exPar none).1 = none := by decide +kernel
+example : (match exSys.boxSetApi exPar.tiny (some (.int 1)) exBox.vects exBox.origin with
+    | .error .typeError => true | _ => false) = true := by decide +kernel
+example : (match exSys.boxSetApi exPar.tiny (some (.npbool true)) exBox.vects exBox.origin with
+    | .error .typeError => true | _ => false) = true := by decide +kernel
+example : (match exSys.normalizeApi exPar (some (.str "LAMMPS")) none with
+    | .error .valueError => true | _ => false) = true := by decide +kernel
+example : (match exSys.normalizeApi exPar none (some (.int 1)) with | .ok (_, true) => true | _ => false) = true := by
+  decide +kernel
+example : (match exSys.normalizeApi exPar (some (.str "lammps")) none with | .ok (_, false) => true | _ => false) = true := by
+  decide +kernel
+-- api_normalize_never_refuses: its hypotheses on `exSys` after `exHist2` (left-handed, fully periodic, clean)
+example : SqrtOK exPar.sqrt (flip (runC exPar exSys exHist2).1.box).vects := by
+  refine ⟨⟨?_, ?_⟩, ⟨?_, ?_⟩, ⟨?_, ?_⟩, ⟨?_, ?_⟩, ⟨?_, ?_⟩⟩ <;> decide +kernel
+
 example (b : Box ℝ) (hdet : M3.det b.vects ≠ 0) (pos : List (V3 ℝ)) :
     ∃ r, normalize? (fun s => ⌊s⌋) (1 / 1000) Real.sqrt b ⟨true, true, true⟩ pos = some r ∧
       Box.isLammpsNorm r.box = true ∧ 0 < M3.det r.box.vects ∧ r.box.origin = ⟨0, 0, 0⟩ ∧
